@@ -86,7 +86,15 @@ func NewDecimal(x int64, exp int) *Decimal {
 	if u < 0 {
 		u = -u
 	}
-	return new(Decimal).setBits64(x < 0, uint64(u), int64(exp))
+	// clamp exp so that adding the number of digits of x cannot wrap around:
+	// anything beyond ±2**33 is out of range anyway.
+	e := int64(exp)
+	if e > 1<<33 {
+		e = 1 << 33
+	} else if e < -(1 << 33) {
+		e = -(1 << 33)
+	}
+	return new(Decimal).setBits64(x < 0, uint64(u), e)
 }
 
 // Abs sets z to the (possibly rounded) value |x| (the absolute value of x)
@@ -1246,7 +1254,15 @@ func (z *Decimal) SetMantExp(mant *Decimal, exp int) *Decimal {
 	if z.form != finite {
 		return z
 	}
-	z.setExpAndRound(int64(z.exp)+int64(exp), 0)
+	// clamp exp so that the sum below cannot wrap around: anything beyond
+	// ±2**33 is out of range whatever z.exp is.
+	e := int64(exp)
+	if e > 1<<33 {
+		e = 1 << 33
+	} else if e < -(1 << 33) {
+		e = -(1 << 33)
+	}
+	z.setExpAndRound(int64(z.exp)+e, 0)
 	return z
 }
 
@@ -1695,6 +1711,10 @@ func (z *Decimal) SetBitsExp(mant []Word, exp int64) *Decimal {
 				p = MaxPrec
 			}
 			z.prec = umax32(uint32(p), DefaultDecimalPrec)
+		}
+		if min := math.MinInt64 + (int64(len(mant))+1)*_DW; exp < min {
+			// avoid int64 wrap-around below; the result underflows anyway
+			exp = min
 		}
 		z.setExpAndRound(exp-dnorm(z.mant)-int64(len(mant)-len(z.mant))*_DW, 0)
 	} else {
